@@ -19,6 +19,7 @@ func init() {
 	register("c08", c08)
 	replayers["t.rt"] = func(a []string) { t, v, p := ttvArgs(a); tRoundTrip(t, v, p) }
 	replayers["t.enc"] = func(a []string) { t, v, p := ttvArgs(a); tEncode(t, v, p) }
+	replayers["t.enc.x"] = replayers["t.enc"]
 	replayers["t.reset"] = func(a []string) { t, v, p := ttvArgs(a); tReset(t, v, p) }
 	replayers["t.dec"] = func(a []string) {
 		f := strings.Split(strings.Join(a, " "), "|")
@@ -44,6 +45,9 @@ func tproto(name string) thrift.Protocol {
 	return &thrift.CompactProtocol{}
 }
 
+// tFnSuffix marks cases whose type shape is outside the universe of the Coq model (no model verdict): ".x"
+var tFnSuffix string
+
 func tRoundTrip(t *tty, v *tval, p string) {
 	if !mine() {
 		skip()
@@ -62,7 +66,7 @@ func tRoundTrip(t *tty, v *tval, p string) {
 		}
 		return t.fromGo(y.Elem()).canon()
 	})
-	emit("t.rt", t.String()+"|"+v.String()+"|"+p, impl, v.canon())
+	emit("t.rt"+tFnSuffix, t.String()+"|"+v.String()+"|"+p, impl, v.canon())
 }
 
 // a reused Encoder / Decoder (Reset) behaves like a fresh one
@@ -116,6 +120,7 @@ type specEnc struct {
 	devTypeCodes bool // binary protocol written with the compact protocol's type codes
 	devStop3     bool // binary protocol stop field written as type byte + 16-bit id
 	devDoubleBE  bool // compact protocol doubles written big-endian
+	devEnumWidth bool // an enum-tagged integer field announces the type code of its Go width (I8/I16/I64) although the value is written as the i32 an enum is
 	// alternative conformant encodings (compact protocol): 1 = every field and list/set header in its long form,
 	// >1 = long or short form chosen per header from this xorshift state
 	alt uint64
@@ -180,7 +185,11 @@ func (e *specEnc) value(t *tty, v *tval, enum bool) {
 			e.buf.WriteByte(0)
 		}
 	case tI8:
-		e.buf.WriteByte(byte(v.i))
+		if enum {
+			e.i32(int32(v.i))
+		} else {
+			e.buf.WriteByte(byte(v.i))
+		}
 	case tI16:
 		if enum {
 			e.i32(int32(v.i))
@@ -308,6 +317,9 @@ func (e *specEnc) structValue(t *tty, v *tval) {
 		}
 		code := e.code(f.t)
 		bt := baseT(f.t)
+		if f.enum && !e.devEnumWidth && (bt.k == tI8 || bt.k == tI16 || bt.k == tI64 || bt.k == tInt) {
+			code = e.code(&tty{k: tI32}) // thrift enums are i32 on the wire, header included
+		}
 		if e.compact {
 			isBool := bt.k == tBool
 			if isBool {
@@ -363,12 +375,12 @@ func tEncode(t *tty, v *tval, p string) {
 	orc := spec
 	if impl != spec {
 		// does it differ from the specification only by the recorded deviations?
-		d := &specEnc{compact: p == "c", devTypeCodes: true, devStop3: true, devDoubleBE: true}
+		d := &specEnc{compact: p == "c", devTypeCodes: true, devStop3: true, devDoubleBE: true, devEnumWidth: true}
 		d.value(t, v, false)
 		if dev := hexs(d.buf.Bytes()); dev == impl {
 			var names []string
-			for _, k := range []string{"typecodes", "stop3", "doublebe"} {
-				x := &specEnc{compact: p == "c", devTypeCodes: k == "typecodes", devStop3: k == "stop3", devDoubleBE: k == "doublebe"}
+			for _, k := range []string{"typecodes", "stop3", "doublebe", "enumwidth"} {
+				x := &specEnc{compact: p == "c", devTypeCodes: k == "typecodes", devStop3: k == "stop3", devDoubleBE: k == "doublebe", devEnumWidth: k == "enumwidth"}
 				x.value(t, v, false)
 				if hexs(x.buf.Bytes()) != spec {
 					names = append(names, k)
@@ -377,7 +389,7 @@ func tEncode(t *tty, v *tval, p string) {
 			orc = "spec=" + spec + " known-deviations=" + strings.Join(names, ",")
 		}
 	}
-	emit("t.enc", t.String()+"|"+v.String()+"|"+p, impl, orc)
+	emit("t.enc"+tFnSuffix, t.String()+"|"+v.String()+"|"+p, impl, orc)
 }
 
 func tErrClass(err error) string {
@@ -400,6 +412,28 @@ func tErrClass(err error) string {
 
 func tDecode(t *tty, b []byte, p string) { tDecodeExpect(t, b, p, "-") }
 
+// plainReader implements io.Reader only (the protocol readers fall back to their slow paths) and delivers short reads
+type plainReader struct {
+	b     []byte
+	chunk int
+}
+
+func (r *plainReader) Read(p []byte) (int, error) {
+	if len(r.b) == 0 {
+		return 0, io.EOF
+	}
+	n := r.chunk
+	if n > len(p) {
+		n = len(p)
+	}
+	if n > len(r.b) {
+		n = len(r.b)
+	}
+	copy(p, r.b[:n])
+	r.b = r.b[n:]
+	return n, nil
+}
+
 func tDecodeExpect(t *tty, b []byte, p string, expect string) {
 	if !mine() {
 		skip()
@@ -408,11 +442,31 @@ func tDecodeExpect(t *tty, b []byte, p string, expect string) {
 	trace("t.dec", t.String()+"|"+hexs(b)+"|"+p)
 	impl := guarded(func() string {
 		y := reflect.New(t.goType())
+		res := ""
 		if err := thrift.Unmarshal(tproto(p), b, y.Interface()); err != nil {
-			return "err:" + tErrClass(err)
+			res = "err:" + tErrClass(err)
+		} else {
+			res = t.fromGo(y.Elem()).canon()
 		}
-		return t.fromGo(y.Elem()).canon()
+		// the same bytes through a Decoder whose source is a plain io.Reader (no ReadByte, short reads): same outcome
+		// (the trailing-bytes check belongs to Unmarshal only)
+		if res != "err:other" {
+			z := reflect.New(t.goType())
+			res2 := ""
+			if err := thrift.NewDecoder(tproto(p).NewReader(&plainReader{b: b, chunk: 1 + len(b)%3})).Decode(z.Interface()); err != nil {
+				res2 = "err:" + tErrClass(err)
+			} else {
+				res2 = t.fromGo(z.Elem()).canon()
+			}
+			if res2 != res {
+				return "READER-DIFFERS unmarshal=" + res + " decoder-over-plain-reader=" + res2
+			}
+		}
+		return res
 	})
+	if expect == "-" && strings.HasPrefix(impl, "READER-DIFFERS") {
+		expect = "the same outcome whatever io.Reader delivers the bytes"
+	}
 	emit("t.dec", t.String()+"|"+hexs(b)+"|"+p, impl, expect)
 }
 
@@ -449,10 +503,30 @@ func tStrict(t *tty, b []byte, p string, expect string) {
 		y := reflect.New(t.goType())
 		d := thrift.NewDecoder(tproto(p).NewReader(bytes.NewReader(b)))
 		d.SetStrict(true)
+		res := ""
 		if err := d.Decode(y.Interface()); err != nil {
-			return "err:" + tErrClass(err)
+			res = "err:" + tErrClass(err)
+		} else {
+			res = t.fromGo(y.Elem()).canon()
 		}
-		return t.fromGo(y.Elem()).canon()
+		// strict mode is a property of the Decoder, not of the reader: the same bytes after Reset (same protocol, and
+		// coming from a reader of the other protocol) give the same outcome
+		for _, from := range []string{p, map[string]string{"c": "bs", "bs": "c", "bn": "c"}[p]} {
+			d2 := thrift.NewDecoder(tproto(from).NewReader(bytes.NewReader(nil)))
+			d2.SetStrict(true)
+			d2.Reset(tproto(p).NewReader(bytes.NewReader(b)))
+			z := reflect.New(t.goType())
+			res2 := ""
+			if err := d2.Decode(z.Interface()); err != nil {
+				res2 = "err:" + tErrClass(err)
+			} else {
+				res2 = t.fromGo(z.Elem()).canon()
+			}
+			if res2 != res {
+				return "STRICT-AFTER-RESET-DIFFERS fresh=" + res + " reset=" + res2
+			}
+		}
+		return res
 	})
 	emit("t.strict", args, impl, expect)
 }
@@ -617,13 +691,14 @@ func c04() {
 	}
 	c04Embedded()
 	c04LongLists()
+	c04LongStringsAndEnums()
 }
 
 // tDecodeAlt: every specification-conformant encoding of the same content is accepted with the same result: the
 // compact encoding with long-form field and list/set headers where a short form exists (all long, or mixed). The
 // recorded deviations of the package (big-endian compact doubles) are reproduced, as in tEncode.
 func tDecodeAlt(t *tty, v *tval, alt uint64) {
-	e := &specEnc{compact: true, devDoubleBE: true, alt: alt}
+	e := &specEnc{compact: true, devDoubleBE: true, devEnumWidth: true, alt: alt}
 	e.value(t, v, false)
 	tDecodeExpect(t, e.buf.Bytes(), "c", v.canon())
 }
@@ -634,6 +709,8 @@ func c13() {
 	if *tier == "thorough" {
 		n, nv = 3000, 10
 	}
+	c04Enums(true)
+	c13Messages()
 	for _, t := range tTypes(n) {
 		for j := 0; j < nv; j++ {
 			v := g.value(t, false)
@@ -645,6 +722,17 @@ func c13() {
 			}
 			tDecodeAlt(t, v, 1)
 			tDecodeAlt(t, v, 2+rnd()>>1)
+			// conformant input carrying fields the reader does not declare (any type and nesting, bool included) is
+			// accepted with the same result, in both protocols and in the long-form compact encodings
+			wt, wv := widen(g, t, v)
+			for _, p := range tprotos {
+				if wb, err := thrift.Marshal(tproto(p), wt.toGo(wv).Addr().Interface()); err == nil {
+					tDecodeExpect(t, wb, p, v.canon())
+				}
+			}
+			we := &specEnc{compact: true, devDoubleBE: true, devEnumWidth: true, alt: 2 + rnd()>>1}
+			we.value(wt, wv, false)
+			tDecodeExpect(t, we.buf.Bytes(), "c", v.canon())
 			if j < 2 {
 				// an Encoder first used on ANOTHER protocol's Writer and then Reset writes the bytes of a fresh one
 				// (the protocol features are re-read from the new Writer)
@@ -738,6 +826,7 @@ func c08() {
 		}
 	}
 	c08StrictNested()
+	c08LongTruncated()
 	_ = fmt.Sprint
 }
 
